@@ -87,6 +87,11 @@ theorem cl_residue_byte : ∀ b : Byte,
 
 theorem cl_upper : Clustal.upper = Spec.Fmt.upper := rfl
 
+theorem cl_residue_ascii : ∀ b : Byte, (isNt b || isSpecial b) = true ∨ (isAa b || isSpecial b) = true → b < 0x80 := by
+  decide
+
+theorem cl_printable_ascii : ∀ b : Byte, isPrintable b = true → b < 0x80 := by decide
+
 /-- what `reprClustal` gives row by row -/
 theorem cl_repr_rows (rows : List XRow) (h : reprClustal rows = true) :
     rows ≠ [] ∧ ∃ L, 1 ≤ L ∧ (∀ r ∈ rows, RowOk L W r) ∧ distinct (rows.map (·.1)) = true := by
@@ -118,11 +123,19 @@ theorem cl_repr_rows (rows : List XRow) (h : reprClustal rows = true) :
       · left
         have h1 : ¬ (r.1.map Clustal.upper = [67, 76, 85, 83, 84, 65, 76]) := by rw [cl_upper]; exact hc.1
         have h2 : ¬ (r.1.map Clustal.upper = [67, 76, 85, 83, 84, 65, 76, 87]) := by rw [cl_upper]; exact hc.2
-        simp [hi, h1, h2]
+        have hu : Utf8.upperLit r.1 = r.1.map Clustal.upper :=
+          Gv.Proofs.Utf8Norm.upperLit_ascii r.1
+            (Gv.Proofs.Utf8Norm.allAscii_of_forall r.1 (fun b hb => cl_printable_ascii b (hn.2 b hb)))
+        simp [hi, hu, h1, h2]
     simp only [residuesOk, Bool.or_eq_true, List.all_eq_true] at hres
-    refine rowOk_of _ r hname (hlen r hr) ?_ ?_
+    refine rowOk_of _ r hname (hlen r hr) ?_ ?_ ?_
     · intro b hb
       apply ph_residue_byte
+      cases hres with
+      | inl h1 => left; simpa using h1 r hr b hb
+      | inr h1 => right; simpa using h1 r hr b hb
+    · intro b hb
+      apply cl_residue_ascii
       cases hres with
       | inl h1 => left; simpa using h1 r hr b hb
       | inr h1 => right; simpa using h1 r hr b hb
